@@ -365,3 +365,4 @@ not_reproduced()
 
 # level text addendum (cases added after the seeded-change rounds)
 LEVEL_TEXT = LEVEL_TEXT + ' Also: the default nanmean with symbolic NaN flags, a header dictionary, chunk sizes that are not a multiple of the bin, savgol on nearly regular abscissae to 1e-9.'
+LEVEL_TEXT = LEVEL_TEXT + ' Round 6: a fractional chunk size in the venn count.'
